@@ -1400,7 +1400,6 @@ func (h *H) envelope(v any, hc, sys bool, s, r vivid.ActorRef) {
 	tv := tmsg(v)
 	in6 := lib.L(lib.N(6), lib.Bool(hc), lib.L(lib.Bool(sys), tEref(s), tEref(r), tv))
 	var data []byte
-	typedNilRef := (!isRealRef(s) && s != nil) || (!isRealRef(r) && r != nil)
 	out := h.protect("EncodeEnvelop", in6, func() lib.T {
 		d, err := serialize.EncodeEnvelopWithRemoting(codec, mailbox.NewEnvelop(sys, s, r, v))
 		if err != nil {
@@ -1410,7 +1409,7 @@ func (h *H) envelope(v any, hc, sys bool, s, r vivid.ActorRef) {
 		return lib.Ok(lib.B(d))
 	})
 	h.o.Case("env-enc", true, in6, out)
-	ok := valid(v, hc) && !typedNilRef
+	ok := valid(v, hc)
 	if data == nil {
 		if ok {
 			h.roundtrip("roundtrip:envelope", in6, "encoding a valid envelope failed: "+lib.Show(out))
@@ -1431,11 +1430,12 @@ func (h *H) envelope(v any, hc, sys bool, s, r vivid.ActorRef) {
 	})
 	h.o.Case("env-dec", true, decodeIn(7, hc, 0, data, oracleTerm(refCalls)), out7)
 	if ok {
+		// an absent ref (nil interface or typed nil pointer) travels as two empty strings
 		es, ep, er, erp := "", "", "", ""
-		if s != nil {
+		if isRealRef(s) {
 			es, ep = s.GetAddress(), s.GetPath()
 		}
-		if r != nil {
+		if isRealRef(r) {
 			er, erp = r.GetAddress(), r.GetPath()
 		}
 		switch {
